@@ -116,8 +116,11 @@ func StepMode(mode Mode, st MState, in In, out Out) (bool, MState) {
 			}
 			ok, n := Step(st, in, out)
 			if !ok {
-				// outcome not explained by the model: not this property's business
-				return true, MState{Phase: PUnknown}
+				// An outcome the model does not explain (e.g. a success reported for a
+				// lease that is not the current one) is C04's business. It ends no lease:
+				// the register stays as it is, so a dequeue that then hands the message
+				// out while the current lease is live is still a refutation of C03.
+				return true, st
 			}
 			return true, n
 		}
